@@ -58,6 +58,12 @@ def step (s : St) (op : String) : St × Option String :=
   | "get" :: rest =>
     let kv := kvs rest
     (s, some (showOut (getLabel s (dec kv "r") (dec kv "n"))))
+  | "listf" :: rest =>
+    -- judge: a listing under unfriendly conditions (a failing descriptor read with a slow consumer;
+    -- a label deleted by someone else between the key scan and its read) failed, or returned every
+    -- label nobody touched with the bundle it was last set to, and nothing else
+    let got := (kvGet (kvs rest) "got").getD ""
+    (s, some (if got == "same" || got == "err" then "sound" else "UNSOUND"))
   | "list" :: rest =>
     let kv := kvs rest
     let r := dec kv "r"
